@@ -52,36 +52,63 @@ def analyse(facts, tier):
     fr[KON] = V(-HORIZON_US, 65535 * 1000)
     eng = Engine2(facts, fr, e2prog.MIN_SIZES, res['param_ranges'], resizers=res['resizers'])
     probes = {'ret_in_if': [], 'before_loop': None, 'dec': {}, 'bonus': []}
-    s_id = None
-    for b, j, st in g.cfg.stmts():
-        if st['s'].get('k') == 'DeclStmt':
-            for v in st['s']['decls']:
-                if v['n'] == 's':
-                    s_id = v['id']
+    # the score: the integer local that the function returns; the user loop: the loop whose body charges the score for a user
+    ret_ids = collections.Counter()
+    for b, j, st in g.cfg.returns():
+        e = strip(st['s'].get('e')) if st['s'].get('e') is not None else None
+        if e is not None and e.get('k') == 'DeclRefExpr' and not e.get('parm'):
+            ret_ids[e['id']] += 1
+    s_id = ret_ids.most_common(1)[0][0] if ret_ids else None
     if s_id is None:
         raise build.AnalysisBroken('C06: score variable not found')
-    loop_ln = None
-    def rec(t):
-        nonlocal loop_ln
+    def two_prices(rhs):
+        """(condition, price when it holds, price when it does not, bindings) of a per-user charge written as `c ? a : b` or as a
+        call of a helper whose whole body is `return flag ? a : b` (flag and the other parameters bound to the arguments)"""
+        c = strip(rhs)
+        if c.get('k') == 'ConditionalOperator':
+            return c['cnd'], c['l'], c['r'], []
+        if 'callee' in c:
+            fl = facts.fns.get(callee_name(c))
+            cf = fl[0] if fl else None
+            body = cf.tree.get('body') if cf is not None and cf.tree is not None and cf.tree.get('k') == 'CompoundStmt' else None
+            if body and len(body) == 1 and body[0].get('k') == 'ReturnStmt' and strip(body[0].get('e') or {}).get('k') == 'ConditionalOperator':
+                r = strip(body[0]['e'])
+                flag = strip(r['cnd'])
+                pidx = {p_['id']: i_ for i_, p_ in enumerate(cf.params)}
+                if flag.get('k') == 'DeclRefExpr' and flag.get('id') in pidx and len(c.get('a', [])) == len(cf.params):
+                    binds = [(p_['id'], c['a'][i_]) for i_, p_ in enumerate(cf.params) if i_ != pidx[flag['id']]]
+                    return c['a'][pidx[flag['id']]], r['l'], r['r'], binds
+        return None
+    loop_node = None
+    def rec(t, loops_):
+        nonlocal loop_node
         if isinstance(t, dict):
-            if t.get('k') == 'ForStmt' and loop_ln is None and mentions(t.get('init'), lambda y: short(callee_name(y)) == 'begin'):
-                loop_ln = t.get('ln')
+            if t.get('k') in ('ForStmt', 'WhileStmt', 'DoStmt'):
+                loops_ = loops_ + [t]
             for k2 in ('body', 'then', 'else', 'sub'):
                 v = t.get(k2)
                 if isinstance(v, list):
                     for y in v:
-                        rec(y)
+                        rec(y, loops_)
                 elif isinstance(v, dict):
-                    rec(v)
-    rec(g.tree)
+                    rec(v, loops_)
+            if t.get('k') not in ('ForStmt', 'WhileStmt', 'DoStmt', 'CompoundStmt', 'IfStmt') and loops_ and loop_node is None:
+                for x in walk(t):
+                    ap = assign_parts(x)
+                    if ap and strip(ap[0]).get('id') == s_id and ap[2] == '-=' and two_prices(ap[1]) is not None:
+                        loop_node = loops_[0]
+    rec(g.tree, [])
     def hook(e_, e, st):
         for x in walk(e):
             ap = assign_parts(x)
-            if ap and strip(ap[0]).get('id') == s_id and ap[2] == '-=' and strip(ap[1]).get('k') == 'ConditionalOperator':
-                c = strip(ap[1])
+            if ap and strip(ap[0]).get('id') == s_id and ap[2] == '-=' and two_prices(ap[1]) is not None:
+                cnd_, arm_t, arm_f, binds = two_prices(ap[1])
                 s1, s2 = st.copy(), st.copy()
-                e_.refine(c['cnd'], True, s1); e_.refine(c['cnd'], False, s2)
-                cn = strip(c['cnd'])
+                e_.refine(cnd_, True, s1); e_.refine(cnd_, False, s2)
+                for pid_, arg_ in binds:
+                    s1.env[('v', pid_)] = e_.ev(arg_, s1)
+                    s2.env[('v', pid_)] = e_.ev(arg_, s2)
+                cn = strip(cnd_)
                 # which branch is the key-down one: condition `sustained == Sustain_None`
                 def is_none_test(y):
                     y = strip(y)
@@ -116,7 +143,7 @@ def analyse(facts, tier):
                     on_chan = any(isinstance(z, dict) and 'callee' in z and short(callee_name(z)) == 'phys_find' and any(isinstance(w, dict) and w.get('id') == cpar for a_ in z.get('a', []) for w in walk(a_)) for z in walk(y))
                     return has_found and on_chan
                 probes['keydown_by_lookup'] = any(lookup_ok(y) for y in disj if not is_none_test(y))
-                a, b2 = e_.ev(c['l'], s1), e_.ev(c['r'], s2)
+                a, b2 = e_.ev(arm_t, s1), e_.ev(arm_f, s2)
                 probes['dec']['key-down' if keydown_true else 'pedal-held'] = a
                 probes['dec']['pedal-held' if keydown_true else 'key-down'] = b2
                 probes['dec_form'] = keydown_true
@@ -136,7 +163,7 @@ def analyse(facts, tier):
             v = eng.ev(s['e'], st)
             gf = None
             probes.setdefault('rets', []).append((s.get('ln'), v))
-        if isinstance(s, dict) and s.get('k') == 'ForStmt' and s.get('ln') == loop_ln:
+        if isinstance(s, dict) and s is loop_node:
             probes['before_loop'] = st.env.get(('v', s_id))
         return orig_stmt(s, st)
     eng.stmt = stmt
@@ -210,23 +237,40 @@ def analyse(facts, tier):
 
     obls += r1b_audio_period(facts)
 
-    # ---- R2 arg-max
+    # ---- R2 arg-max (all anchors by shape: the score is the local initialised from calculateChipChannelGoodness, the best score the
+    # local it is compared with and stored into)
     non = facts.fn('OPNMIDIplay::realTime_NoteOn')
+    score_ids = set()
+    call_site = None
+    for b, j_, st in non.cfg.stmts():
+        if st['s'].get('k') == 'DeclStmt':
+            for v in st['s']['decls']:
+                if v.get('init') is not None and any(isinstance(y, dict) and 'callee' in y and short(callee_name(y)) == 'calculateChipChannelGoodness' for y in walk(v['init'])):
+                    score_ids.add(v['id'])
+                    call_site = (b, j_, st)
+        ap = assign_parts(st['s'])
+        if ap and strip(ap[0]).get('k') == 'DeclRefExpr' and any(isinstance(y, dict) and 'callee' in y and short(callee_name(y)) == 'calculateChipChannelGoodness' for y in walk(ap[1])):
+            score_ids.add(strip(ap[0])['id'])
+            call_site = (b, j_, st)
+    if not score_ids or call_site is None:
+        raise build.AnalysisBroken('C06.R2: the score local of the candidate loop not found')
     best = None
-    for b, j, st in non.cfg.stmts():
+    for b, j_, st in non.cfg.stmts():
         for x in walk(st['s']):
             ap = assign_parts(x)
-            if ap and strip(ap[0]).get('k') == 'DeclRefExpr' and short(strip(ap[0])['n']) == 'bs':
+            if ap and strip(ap[0]).get('k') == 'DeclRefExpr' and any(isinstance(y, dict) and y.get('id') in score_ids for y in walk(ap[1])) and strip(ap[0])['id'] not in score_ids:
+                bs_id = strip(ap[0])['id']
                 gf = guard_facts(non, b, st)
-                strict = any(f[0] == 'cmp' and f[1] in ('>', '>=') and short(strip(f[2]).get('n', '')) == 's' and short(strip(f[3]).get('n', '')) == 'bs' for f in gf)
+                strict = any(f[0] == 'cmp' and ((f[1] in ('>', '>=') and strip(f[2]).get('id') in score_ids and strip(f[3]).get('id') == bs_id) or
+                                                (f[1] in ('<', '<=') and strip(f[3]).get('id') in score_ids and strip(f[2]).get('id') == bs_id)) for f in gf)
                 best = (st['loc'], strict)
     obls.append(Obl('C06.R2', non.name, 'keep the greatest score', best[0] if best else non.loc, 'discharged' if best and best[1] else 'finding',
-                    why='best candidate updated only when the score is not lower than the best so far' if best and best[1] else 'best-candidate update is not guarded by a comparison s > bs / s >= bs'))
+                    why='best candidate updated only when the score is not lower than the best so far' if best and best[1] else 'best-candidate update is not guarded by a comparison score > best / score >= best'))
     # loop bound and the only skip
     loops = []
     def rec2(t):
         if isinstance(t, dict):
-            if t.get('k') == 'ForStmt' and t.get('cond') is not None and mentions(t.get('body'), lambda y: short(callee_name(y)) == 'calculateChipChannelGoodness'):
+            if t.get('k') in ('ForStmt', 'WhileStmt') and t.get('cond') is not None and mentions(t.get('body'), lambda y: short(callee_name(y)) == 'calculateChipChannelGoodness'):
                 loops.append(t)
             for k2 in ('body', 'then', 'else', 'sub'):
                 v = t.get(k2)
@@ -236,36 +280,82 @@ def analyse(facts, tier):
                 elif isinstance(v, dict):
                     rec2(v)
     rec2(non.tree)
-    inner = [l for l in loops if not any(l2 is not l and mentions(l.get('body'), lambda y, l2=l2: y is l2) for l2 in loops)]
     lp = min(loops, key=lambda l: len(str(l))) if loops else None
     okb = lp is not None and mentions(lp['cond'], member_named('m_numChannels')) and strip(lp['cond']).get('op') == '<'
     obls.append(Obl('C06.R2', non.name, 'every chip channel is a candidate', '%s:%s' % (non.file, lp.get('ln') if lp else non.d['line']), 'discharged' if okb else 'finding',
-                    why='for a < m_numChannels' if okb else 'candidate loop does not range over all m_numChannels channels'))
-    skips = []
-    if lp:
-        body = lp.get('body') or {}
-        for it in (body.get('body', []) if body.get('k') == 'CompoundStmt' else [body]):
-            if isinstance(it, dict) and it.get('k') == 'IfStmt' and (it.get('then') or {}).get('k') == 'ContinueStmt':
-                skips.append(show(it['cond']))
-    oks = len(skips) == 1 and 'adlchannel[0]' in skips[0] and 'ccount == 1' in skips[0]
-    obls.append(Obl('C06.R2', non.name, 'only the chosen primary is skipped', '%s:%s' % (non.file, lp.get('ln') if lp else non.d['line']), 'discharged' if oks else 'finding',
-                    why='single skip: %s' % skips[0] if oks else 'candidate loop skips channels other than the primary of a two-voice note: %s' % skips))
+                    why='loop variable < m_numChannels' if okb else 'candidate loop does not range over all m_numChannels channels'))
+    # the conditions under which a channel is scored, beyond those of the loop itself: exactly "not (second voice and the channel
+    # chosen for the first voice)", in whatever spelling (early continue, nested if, merged condition)
+    oks, why_s = False, 'candidate loop not found'
+    if lp is not None:
+        iv = strip(strip(lp['cond']).get('l'))
+        while iv is not None and (iv.get('k') or '').endswith('CastExpr'):
+            iv = strip(iv.get('e'))
+        b, j_, st = call_site
+        gf_call = guard_facts(non, b, st, loops=False)
+        # conditions that cannot change between candidates (they mention neither the loop variable nor anything the loop body
+        # writes) skip all candidates or none, and are not this obligation's business
+        varying = {(iv or {}).get('id')}
+        for x in walk(lp.get('body')):
+            ap = assign_parts(x) if isinstance(x, dict) else None
+            if ap and strip(ap[0]).get('k') == 'DeclRefExpr':
+                varying.add(strip(ap[0])['id'])
+            if isinstance(x, dict) and x.get('k') == 'DeclStmt':
+                for v in x.get('decls', []):
+                    varying.add(v['id'])
+        def fwalk(f):
+            if isinstance(f, (tuple, list)):
+                for y in f:
+                    yield from fwalk(y)
+            elif isinstance(f, dict):
+                yield from walk(f)
+        def varies(f):
+            return any(y.get('k') == 'DeclRefExpr' and y.get('id') in varying for y in fwalk(f))
+        extra = [f for f in gf_call if varies(f)]
+        def is_primary_test(lit, neg):
+            # a != <array>[0]   (neg)  /  a == <array>[0]
+            if lit[0] != 'cmp' or lit[1] != ('!=' if neg else '=='):
+                return False
+            sides = [strip(lit[2]), strip(lit[3])]
+            def unc(e):
+                while e is not None and (e.get('k') or '').endswith('CastExpr'):
+                    e = strip(e.get('e'))
+                return e
+            sides = [unc(x) for x in sides]
+            has_iv = any(x is not None and x.get('id') == (iv or {}).get('id') for x in sides)
+            has_prim = any(x is not None and x.get('k') == 'ArraySubscriptExpr' and const_of(x.get('i')) == 0 for x in sides)
+            return has_iv and has_prim
+        def is_second_voice(lit, neg):
+            nn = cmp_norm(lit) if lit[0] == 'cmp' else None
+            return bool(nn) and nn[0] == ('!=' if neg else '==') and nn[2] == 1 and strip(nn[1]).get('k') == 'DeclRefExpr'
+        if len(extra) == 1 and extra[0][0] == 'or' and len(extra[0][1]) == 2 and all(len(a) == 1 for a in extra[0][1]):
+            l1, l2 = extra[0][1][0][0], extra[0][1][1][0]
+            oks = (is_second_voice(l1, True) and is_primary_test(l2, True)) or (is_second_voice(l2, True) and is_primary_test(l1, True))
+        why_s = 'a channel is scored unless it is the second voice looking at the channel of the first: %s' % ' ; '.join(fact_str(f) for f in extra) if oks else \
+            'the candidate loop scores a channel only under [%s]: channels other than the primary of a two-voice note are skipped (or the primary is not)' % ' ; '.join(fact_str(f) for f in extra)
+    obls.append(Obl('C06.R2', non.name, 'only the chosen primary is skipped', '%s:%s' % (non.file, lp.get('ln') if lp else non.d['line']), 'discharged' if oks else 'finding', why=why_s))
 
     # ---- R3
     pc = facts.fn('OPNMIDIplay::prepareChipChannelForNewNote')
     c_id = pc.params[0]['id']
+    # the first thing the function does is the emptiness test (only declarations of names for existing objects may stand before it)
     first = None
+    al_pc = alias_defs(pc.d)
     for b, j, st in pc.cfg.stmts():
+        s_ = st['s']
+        if not st.get('is_cond') and s_.get('k') == 'DeclStmt' and not any(is_incdec(y) or assign_parts(y) or ('callee' in y and short(callee_name(y)) != 'operator[]') for y in walk(s_)):
+            continue
         first = (b, j, st)
         break
-    early = first is not None and first[2].get('is_cond') and short(callee_name(strip(first[2]['s']))) == 'empty' and mentions(first[2]['s'], lambda y: y.get('id') == c_id)
+    early = first is not None and first[2].get('is_cond') and short(callee_name(strip(first[2]['s']))) == 'empty' and \
+        mentions(subst(first[2]['s'], al_pc), lambda y: y.get('id') == c_id) and mentions(subst(first[2]['s'], al_pc), member_named('users'))
     ret_first = False
     if early:
         blk = pc.cfg.blocks[first[0]]
         t = blk['succ'][0]
         ret_first = t is not None and any(s_['s'].get('k') == 'ReturnStmt' for s_ in pc.cfg.blocks[t]['stmts'])
     obls.append(Obl('C06.R3', pc.name, 'no users => return before any mutation', pc.loc, 'discharged' if (early and ret_first) else 'finding',
-                    why='first statement: if(m_chipChannels[c].users.empty()) return' if (early and ret_first) else 'a channel without users is not left untouched'))
+                    why='first statement: if(<channel c>.users.empty()) return' if (early and ret_first) else 'a channel without users is not left untouched'))
     for b, j, st in pc.cfg.stmts():
         for x in calls_in(st['s']):
             sn = short(callee_name(x))
@@ -318,10 +408,13 @@ def r4(facts):
         if fn.tree is None or not fn.relfile().startswith('src/') or '/chips/' in fn.relfile():
             continue
         mir = []
+        al = alias_defs(fn.d)       # `OpnTimbre &voice = ins.op[0]; .. ins.op[1] = voice;` is the same statement
+        def obj(e):
+            return show(strip(subst(strip(e), al)))
         for b, j, st in fn.cfg.stmts():
             for x in walk(st['s']):
                 ap = assign_parts(x)
-                if ap and show(strip(ap[0])).endswith('.op[1]') and show(strip(ap[1])).endswith('.op[0]'):
+                if ap and obj(ap[0]).endswith('.op[1]') and obj(ap[1]).endswith('.op[0]'):
                     mir.append((b, j, st))
         for b, j, st in mir:
             n += 1
@@ -332,7 +425,7 @@ def r4(facts):
                 for x in walk(st2['s']):
                     ap = assign_parts(x)
                     tgt = ap[0] if ap else (x['e'] if is_incdec(x) else None)
-                    if tgt is not None and ('.op[0]' in show(strip(tgt)) or '.op[1]' in show(strip(tgt))):
+                    if tgt is not None and ('.op[0]' in obj(tgt) or '.op[1]' in obj(tgt)):
                         late.append((st2['loc'], show(x)[:60]))
             out.append(Obl('C06.R4', fn.name, 'voices mirrored last', st['loc'], 'finding' if late else 'discharged',
                            why=('after `op[1] = op[0]` the function still writes %s: the voices of a single-voice instrument differ and each of its notes takes two chip channels' % late[0][1]) if late else
@@ -347,24 +440,6 @@ def r1b_audio_period(facts):
     `eat_delay`.  Ageing follows the rendered audio only if eat_delay never exceeds the time of CAP frames: eat_delay must be
     min(.., setup.maxdelay) and maxdelay must be defined as CAP / PCM_RATE."""
     out = []
-    def minlike(e):
-        """(a < M ? a : M) and mirror images -> (a, M) shown"""
-        e = strip(e)
-        if e is not None and 'callee' in e and short(callee_name(e)) == 'min' and len(e.get('a', [])) == 2:
-            return strip(e['a'][0]), strip(e['a'][1])
-        if e is None or e.get('k') != 'ConditionalOperator':
-            return None
-        lits = [f for f in literals(e['cnd'], True) if f[0] == 'cmp']
-        if len(lits) != 1:
-            return None
-        _, op, cl, cr = lits[0]
-        l, r = show(strip(e['l'])), show(strip(e['r']))
-        a, b = show(strip(cl)), show(strip(cr))
-        if op in ('<', '<=') and (l, r) == (a, b):
-            return strip(e['l']), strip(e['r'])
-        if op in ('>', '>=') and (l, r) == (b, a):
-            return strip(e['l']), strip(e['r'])
-        return None
     caps = set()
     n = 0
     for name in ('opn2_playFormat', 'opn2_generateFormat'):
@@ -385,11 +460,11 @@ def r1b_audio_period(facts):
         # frame cap of one round
         for vid, ds in defs.items():
             for d in ds:
-                d = strip(d)
-                if d.get('k') == 'ConditionalOperator':
-                    for arm in (d['l'], d['r']):
+                m = minlike(d)
+                if m:
+                    for arm in m:
                         c = const_of(arm)
-                        if c is not None and c >= 64 and any(const_of(y) == c for y in walk(d['cnd'])):
+                        if c is not None and c >= 64:
                             caps.add(c)
         for b, j, st in fn.cfg.stmts():
             for x in calls_in(st['s']):
